@@ -55,6 +55,12 @@ def accuracy(ctx):
         ctx.ob("FWD", "ADWINAccuracy.update", "labels are not passed on as data", all(r == T.NONE for r in rest), "", cs[0])
 
 
+def _neg_pow(d):
+    """d = -(2 ** k): a negative power of two"""
+    a = (-d).single_atom()
+    return a is not None and a[0] == "pow" and a[1] == const(2)
+
+
 def window_writers(ctx):
     tr = ctx.trace("ADWIN", "update", assume={"_drift_state": None}, nonnull=("X",))
     st = tr.stores("_window_size")
@@ -64,7 +70,7 @@ def window_writers(ctx):
             ok = T.same(e.value, e.old + const(1))
             what = "W grows by one per update"
         elif e.func.qualname == "ADWIN._remove_last":
-            ok = T.mentions(e.old - e.value, lambda a: a[0] == "pow") and e.aug is not None and e.aug[0] == "Sub"
+            ok = e.aug is not None and e.aug[0] == "Add" and T.mentions(e.aug[1], lambda a: a[0] == "pow") and T.same(e.value, e.old + e.aug[1]) and _neg_pow(e.aug[1])
             what = "W shrinks by the size of the dropped bucket"
         else:
             ok, what = False, "window size written outside update/_remove_last"
@@ -125,7 +131,9 @@ def formulas(ctx):
             ctx.ob("FRM", "ADWIN._compress_buckets", "merged variance (Chan et al. pairwise update, equal sizes)",
                    ok_n and T.same(ab[0].args[1], S("v0 + v1 + n * (t0 / n - t1 / n) ** 2 / 2", env)), q.short(ab[0].args[1], 240), ab[0])
             # row position: starts at 0 at the head and grows by one per row
-            lp = [e for e in tc.of("local") if e.name == "list_position"]
+            ex = posv[0][2].single_atom()
+            pos_name = ex[2][1:] if ex is not None and ex[0] == "loopvar" else None
+            lp = [e for e in tc.of("local") if e.name == pos_name]
             ok = any(e.value == const(0) for e in lp) and any(e.aug is not None and e.aug == ("Add", const(1)) for e in lp)
             ctx.ob("AGREE", "ADWIN._compress_buckets", "row position counts from the head (2^0 elements per bucket)", ok, "")
             ctx.ob("ORD", "ADWIN._compress_buckets", "buckets are read before they are removed", ab[0].seq < rb[0].seq, "", ab[0])
@@ -195,34 +203,54 @@ def _eq_mod_sqrt(a, b):
     return T.same(a2, b)
 
 
+def _lv_names(t):
+    return [a[2][1:] for a in T.atoms_of(t, "loopvar") if a[2].startswith("$")]
+
+
 def scan(ctx):
     tr = ctx.trace("ADWIN", "_shrink_window")
+    ce = [e for e in q.find_calls(tr, "ADWIN._check_epsilon") if e.func.qualname == "ADWIN._shrink_window"]
+    if not ctx.anchor("ADWIN._shrink_window", "the split test _check_epsilon(n0, total0, n1, total1)", len(ce) == 1 and len(ce[0].args) == 4):
+        return
+    # the four running quantities of the scan are the locals passed to the split test
+    names = []
+    for a_ in ce[0].args:
+        ns = [n for n in _lv_names(a_)]
+        names.append(ns[0] if ns else None)
+    if not ctx.anchor("ADWIN._shrink_window", "the scan's running sizes and totals are local variables", None not in names and len(set(names)) == 4):
+        return
+    N0, T0, N1, T1 = names
     loc = [e for e in tr.of("local") if e.func.qualname == "ADWIN._shrink_window" and e.aug is not None]
     by = {}
     for e in loc:
         by.setdefault(e.name, []).append(e)
     def aug(name):
         return by.get(name, [None])[0]
-    n0, n1, t0, t1 = aug("n_elements0"), aug("n_elements1"), aug("total0"), aug("total1")
-    ok = n0 is not None and n1 is not None and n0.aug[0] == "Add" and n1.aug[0] == "Sub" and n0.aug[1] == n1.aug[1]
+    n0, n1, t0, t1 = aug(N0), aug(N1), aug(T0), aug(T1)
+    ok = n0 is not None and n1 is not None and n0.aug[0] == "Add" and n1.aug[0] == "Add" and T.same(n0.aug[1], -n1.aug[1])
     ctx.ob("PAIR", "ADWIN._shrink_window", "elements added to the older part are taken from the newer part", ok, "")
-    ok = t0 is not None and t1 is not None and t0.aug[0] == "Add" and t1.aug[0] == "Sub" and t0.aug[1] == t1.aug[1]
+    ok = t0 is not None and t1 is not None and t0.aug[0] == "Add" and t1.aug[0] == "Add" and T.same(t0.aug[1], -t1.aug[1])
     ctx.ob("PAIR", "ADWIN._shrink_window", "totals added to the older part are taken from the newer part", ok, "")
+    pos_name = None
     if n0 is not None:
         inc = n0.aug[1].single_atom()
-        ok = inc is not None and inc[0] == "pow" and inc[1] == const(2) and T.mentions(inc[2], lambda a: a[0] == "loopvar" and a[2] == "$list_pos")
+        ok = inc is not None and inc[0] == "pow" and inc[1] == const(2) and (inc[2].single_atom() or ("",))[0] == "loopvar"
+        if ok:
+            pos_name = inc[2].single_atom()[2][1:]
         ctx.ob("AGREE", "ADWIN._shrink_window", "scan uses bucket size 2^row", ok, "")
-    lp = [e for e in tr.of("local") if e.name == "list_pos" and e.func.qualname == "ADWIN._shrink_window"]
+    lp = [e for e in tr.of("local") if e.name == pos_name and e.func.qualname == "ADWIN._shrink_window"]
     size1 = atom(("getattr", A("_bucket_row_list"), "size")) - const(1)
-    ok = any(T.same(e.value, size1) or (e.value.single_atom() or ("",))[0] == "loopvar" and False for e in lp) or \
-        any(T.mentions(e.value, lambda a: a[0] == "getattr" and a[2] == "size") and T.same(e.value - atom([a for a in T.atoms_of(e.value, "getattr") if a[2] == "size"][0]), const(-1)) for e in lp if e.aug is None)
-    dec = any(e.aug == ("Sub", const(1)) for e in lp)
+    ok = any(e.aug is None and T.mentions(e.value, lambda a: a[0] == "getattr" and a[2] == "size") and
+             T.same(e.value - atom([a for a in T.atoms_of(e.value, "getattr") if a[2] == "size"][0]), const(-1)) for e in lp)
+    dec = any(e.aug == ("Add", const(-1)) for e in lp)
     ctx.ob("AGREE", "ADWIN._shrink_window", "scan starts at the tail row (position rows-1) and moves towards the head", ok and dec, "")
     # initial split: everything in the newer part
-    init = [e for e in tr.of("local") if e.name in ("n_elements1", "total1") and e.aug is None and e.func.qualname == "ADWIN._shrink_window"]
+    init = [e for e in tr.of("local") if e.name in (N1, T1) and e.aug is None and e.func.qualname == "ADWIN._shrink_window"]
     okv = {e.name: e.value for e in init}
     ctx.ob("FRM", "ADWIN._shrink_window", "scan starts with the whole window in the newer part",
-           _is_cur(okv.get("n_elements1"), "_window_size") and _is_cur(okv.get("total1"), "_curr_total"), "")
+           _is_cur(okv.get(N1), "_window_size") and _is_cur(okv.get(T1), "_curr_total"), "")
+    init0 = [e for e in tr.of("local") if e.name in (N0, T0) and e.aug is None and e.func.qualname == "ADWIN._shrink_window"]
+    ctx.ob("FRM", "ADWIN._shrink_window", "and nothing in the older part", len(init0) >= 2 and all(e.value == const(0) for e in init0), "")
     # after a removal the dropped elements leave the older part
     rm = q.find_calls(tr, "ADWIN._remove_last")
     ctx.ob("ROLE", "ADWIN._shrink_window", "removal inside the scan", len(rm) >= 1, "")
